@@ -163,6 +163,8 @@ func (f c17Feat) normalize(avoid c17Avoid) {
 	if f["typedNonterm"] {
 		f["actions"] = true
 	}
+	// derived: the lookahead target is itself a user no-eoi input (class [C17-lookahead-user-input], once its probe builds)
+	f["laInput"] = f["lookahead"] && f["noEoiInput"] && !f["lalr2"] && !avoid["[C17-lookahead-user-input]"]
 	if f["tokenStream"] && f["typedNonterm"] && avoid["[C17-stream-value]"] {
 		f["typedNonterm"] = false // the shift stores stream.Value(), which no template declares
 	}
@@ -279,7 +281,9 @@ func c17Skeleton(r *rand.Rand, name string, f c17Feat, n c17Names) string {
 		sb.WriteString("\n:: parser\n\n")
 	}
 	inputs := "File"
-	if f["multiInput"] {
+	if f["laInput"] {
+		inputs += ", IsCall no-eoi"
+	} else if f["multiInput"] {
 		inputs += ", Call"
 		if f["noEoiInput"] {
 			inputs += " no-eoi"
@@ -1182,7 +1186,7 @@ func c17(c *Ctx) {
 		"and random CFGs (gram.go RandGram) with rule arrows, under feature/option vectors chosen greedily for pairwise coverage of " + fmt.Sprint(len(c17Bools)) + " Boolean dimensions (eventBased/eventFields/eventAST/genSelector/fileNode/tokenStream/fixWhitespace/cancellable(+Fetch)/recursiveLookaheads/optimizeTables/defaultReduce/minimizeDFA/writeBison/debugParser/tokenLine/tokenLineOffset/tokenColumn/scanBytes/nonBacktracking/skipByteOrderMark/caseInsensitive/nodePrefix/extraTypes and the features above), normalised by the dependencies the compiler enforces; " +
 		"stress stream: Go keywords, predeclared identifiers and generated-looking names as token, node-type, set and marker names (names of a collision class only once its probe builds). " +
 		"Each grammar: compiler.Compile + gen.Generate in a child process (a crash is a finding), all packages in one scratch module, go build ./... and go vet ./...; the trusted implications of the Lean table are evaluated on every compiled grammar; non-trivial = a package that was generated and compiled by the Go compiler; distinct by grammar text. " +
-		"A class whose probe still fails is reported once (stable token) and avoided by the random stream (see `classes_present`): eventBased forced on for grammars with a parser while [C17-ruletype-nodetype] is present, tokenStream off without eventBased ([C17-stream-without-types]), genSelector on with eventAST ([C17-ast-without-selector]), tokenLine kept with tokenStream ([C17-stream-tokenline]), cancellableFetch off with tokenStream + lookahead ([C17-stream-cancellablefetch]), nodePrefix off ([C17-nodeprefix]), template flags off with typed nonterminals ([C17-typed-ref-after-instantiate]), the two known go vet messages filtered; flags (`-> T/Flag`) are never generated (they need user-supplied constants); semantic-action reference errors reported by gen.Generate are counted, not reported (C16)."
+		"A class whose probe still fails is reported once (stable token) and avoided by the random stream (see `classes_present`): eventBased forced on for grammars with a parser while [C17-ruletype-nodetype] is present, tokenStream off without eventBased ([C17-stream-without-types]), genSelector on with eventAST ([C17-ast-without-selector]), tokenLine kept with tokenStream ([C17-stream-tokenline]), cancellableFetch off with tokenStream + lookahead ([C17-stream-cancellablefetch]), nodePrefix off ([C17-nodeprefix]), template flags off with typed nonterminals ([C17-typed-ref-after-instantiate]), typed nonterminals off with tokenStream ([C17-stream-value]), the lookahead target never a user no-eoi input ([C17-lookahead-user-input]), the two known go vet messages filtered; flags (`-> T/Flag`) are never generated (they need user-supplied constants); semantic-action reference errors reported by gen.Generate are counted, not reported (C16)."
 
 	c17LeanTie(c, repo)
 
@@ -1447,6 +1451,9 @@ func c17(c *Ctx) {
 					if cs.Feat[k] {
 						c.Count("on-" + k)
 					}
+				}
+				if cs.Feat["laInput"] {
+					c.Count("on-laInput")
 				}
 				if cs.Vet != "" {
 					before := len(cs.VetAll)
